@@ -21,7 +21,7 @@ import os
 import random
 
 import c03
-from common import NPROC, VERIF, Check, coq_bool, coq_list, coq_opt, coq_Z, parse_coq_value, parse_eval_outputs
+from common import NPROC, VERIF, Check, coq_bool, coq_list, coq_opt, coq_Z, parse_coq_value, parse_eval_outputs, run_impl
 
 OF_SIG = ("OffsetFetch v2+ reply with a group-level error in the top-level error_code (no partitions) is read as "
           "'no committed offset'")
@@ -130,6 +130,55 @@ def finding_scenarios(base_id):
     c.update({"id": base_id + 2, "policy": "latest", "mode": "assign",
               "inject": {"after_kind": "c_lo_sent", "p": 0, "kind": "seek_beg", "to": 0}})
     return [a, b, c]
+
+
+def check_second_assignment(ck):
+    """a second assignment during the consumer's life (assign() called again, unsubscribe() + subscribe(), a subscribed
+    topic growing) gets its start positions like the first: within seconds every assigned partition has a position, the
+    log start under 'earliest', the log end under 'latest' (under 'none' there is nothing to establish: position() waits).
+    Monitors only: the Coq model of C13 describes one assignment."""
+    cases = []
+    k = 0
+    for how in ("assign_twice", "grow", "resubscribe"):
+        for group in (False, True):
+            for policy in ("earliest", "latest", "none"):
+                for lo in (None, 0, 1):
+                    if how == "assign_twice" and group:
+                        continue
+                    c = {"seed": 1300 + k, "how": how, "group": group, "policy": policy, "partitions": 2, "preload": 4,
+                         "same": k % 2 == 0}
+                    if lo is not None:
+                        c["api_ranges"] = {"2": [0, lo]}
+                    cases.append(c)
+                    k += 1
+    out = run_impl("c13_reassign_impl.py", {"cases": cases}, timeout=900, env={"AIOKAFKA_NO_EXTENSIONS": "1"})["out"]
+    bad = 0
+    for c, r in zip(cases, out):
+        ck.count(key=("second-assignment", json.dumps(c, sort_keys=True)), nontrivial=True)
+        what = None
+        if "error" in r:
+            what = f"the run failed: {r['error']}"
+        else:
+            for phase in ("first", "second"):
+                for p, pos in r[phase].items():
+                    end = r["ends"][p]
+                    want = {"earliest": 0, "latest": end}.get(c["policy"])
+                    if c["policy"] == "none":
+                        # nothing to reset to: position() keeps waiting (the error goes to getone()/getmany())
+                        ok = pos in ("TIMEOUT", "EXC:NoOffsetForPartitionError")
+                    else:
+                        ok = pos == want
+                    if not ok and what is None:
+                        what = (f"{phase} assignment ({c['how']}, {'group' if c['group'] else 'no group'}, policy "
+                                f"{c['policy']}): position of partition {p} is {pos}, expected "
+                                f"{'NoOffsetForPartitionError' if c['policy'] == 'none' else want}")
+        if what:
+            bad += 1
+            if bad <= 5:
+                ck.violation(what, {"kind": "second-assignment", "case": c, "observed": r},
+                             signature=f"second-assignment:{c['how']}:{c['policy']}:{int(c['group'])}")
+    ck.extra["second_assignment_cases"] = len(cases)
+    ck.log(f"second assignment: {len(cases)} cases, {bad} without proper start positions")
 
 
 def seek_to_committed_scenarios(base_id):
@@ -715,6 +764,7 @@ def run(ck: Check):
                   f"{rejected} rejected, {coq_fail} case files failed to evaluate")
     ck.obligation("correspondence:model-output-equals-observed", mismatched == 0, f"{mismatched} differ")
     ck.obligation("correspondence:every-simulation-ran", hist["failed_runs"] == 0, f"{hist['failed_runs']} failed")
+    check_second_assignment(ck)
     ck.cov["traces_validated_against_impl"] = accepted
     ck.log(f"model acceptance: {len(cases)} traces, accepted={accepted}, rejected={rejected}, mismatched={mismatched}, "
            f"coq_fail={coq_fail}")
